@@ -6,7 +6,7 @@
     line < 2^24, column < 2^32, the key determines (object type, selections), so a hit returns
     what collectFieldsImpl would compute. *)
 From Coq Require Import List NArith ZArith Bool Lia ZifyN ZifyNat ZifyBool.
-From ApiFu Require Import Base.Sexp Exe.ExecData Exe.ExecModel Exe.ExecHyps Exe.ExecBaseProofs Exe.ExecCollectProofs.
+From ApiFu Require Import Base.Sexp Exe.ExecData Exe.ExecModel Exe.ExecHyps Exe.ExecSpec Exe.ExecBaseProofs Exe.ExecCollectProofs Exe.ExecDirProofs.
 Import ListNotations.
 
 (** ** the key is injective *)
@@ -272,6 +272,7 @@ Section Transparent.
   Hypothesis Hinj : pos_injective D.
   Hypothesis Hsmall : positions_small D.
   Hypothesis Hnames : type_names_ok S.
+  Hypothesis Hev : dirs_evaluable D E = true.
 
   Definition cache_inv (C : list (bytes * gfs)) : Prop :=
     Forall (fun kg => forall ot sels, name_ok ot -> Forall (occurs D) sels -> cache_key ot sels = fst kg ->
@@ -328,6 +329,12 @@ Section Transparent.
     (forall g, fst (collect_fields M2 S D E fuel ot sels st2) = CFOk g -> nodes_ok D g).
   Proof.
     intros Hot Hocc [He Hc]. unfold collect_fields. rewrite Hm1, Hm2.
+    assert (Hnil : snd (collect_errs S D E fuel ot sels []) = []).
+    { apply (collect_errs_nil S D E (occurs D)); [| | |exact Hocc].
+      - intros s Hs. unfold dirs_evaluable in Hev. rewrite forallb_forall in Hev. apply Hev. exact Hs.
+      - intros tc p d sub Hs. exact (occurs_children D _ Hs).
+      - intros f Hf. apply occurs_frag. exact Hf. }
+    rewrite Hnil, !add_errs_nil.
     assert (Hnodes : forall v g, collect_impl S D E fuel ot sels [] [] = COk v g -> nodes_ok D g).
     { intros v g Hci. eapply collect_impl_nodes; [exact Hocc|constructor|exact Hci]. }
     destruct (assoc (cache_key ot sels) (st_cache st1)) as [g|] eqn:Ea.
